@@ -177,10 +177,11 @@ func (d *Driver) NewLLRPDevice(name string, address net.Addr, opState contract.O
 					return true, clientErr
 				})
 
-				switch err {
-				case nil:
+				// err is an *retry.FError wrapping the cause, so it must be tested with errors.Is.
+				switch {
+				case err == nil:
 					return true, nil // connection reset normally
-				case context.Canceled:
+				case errors.Is(err, context.Canceled):
 					return false, err // device stopped normally
 				}
 
